@@ -178,9 +178,3 @@ Example C11_transfer_nonvacuous :
     [AddRecord acom 16 txt; Renew acom 1; Transfer (Some pA) acom; SetAdmin acom (Some pB)]
   = [(VFault, false); (VFault, false); (VBool false, false); (VFault, false)].
 Proof. vm_compute. auto. Qed.
-
-(** Source constants.  The literals of the model behind this property are tied to the
-    constants of /repo's Go sources (Gen/Params.v, regenerated from the working tree on
-    every run) in Proofs/TiesNNS.v; requiring that file here makes the obligations of this
-    property fail when a constant it depends on is edited in the source. *)
-Require Verif.Proofs.TiesNNS.
